@@ -354,6 +354,20 @@ def r3(ctx, R):
         resets = [st for st in (lp.body if lp else []) if isinstance(st, ast.Assign) and norm(st) == "is_relative = False"]
         if lp is not None and not resets:
             R.bad(fi, lp, "is_relative leaks from one sub space to the next")
+    for spec, act in (("SpaceManager.new_ref", "on_create_ref"), ("SpaceManager.change_ref", "on_change_ref")):
+        fi = ctx.func(spec)
+        R.inst("%s: what one sub space binds does not leak into the next (the parameter `value` is not re-bound in the loop)" % spec)
+        for lp_ in [x for x in walk_local(fi.node) if isinstance(x, ast.For)]:
+            for x in ast.walk(lp_):
+                if isinstance(x, ast.Name) and x.id == "value" and isinstance(x.ctx, ast.Store):
+                    R.bad(fi, x, "the loop over the sub spaces overwrites `value`: after one sub space was given its own "
+                                 "(or the null) object every later sub space is bound to that object too")
+    ic = ctx.func("ReferenceManager._impl_change_ref")
+    R.inst("_impl_change_ref hands the mode on as it got it")
+    if ic.node.args.vararg is not None or not any(
+            len(c.args) >= 4 and norm(c.args[3]) == "refmode" for c in q.calls(ic, name="change_ref")):
+        R.bad(ic, ic.node, "the reference mode reaches SpaceManager.change_ref as a tuple: after update_pandas / update_module "
+                           "the reference and its derived copies have refmode ('absolute',)", stmt="refmode passed on")
     oc_ = ctx.func("UserSpaceImpl.on_change_ref")
     R.inst("on_change_ref returns the *new* reference and gives it the is_relative value before the dynamic subs are updated")
     nv = [n_ for n_ in walk_local(oc_.node) if isinstance(n_, ast.Assign) and isinstance(n_.value, ast.Call)
